@@ -73,7 +73,15 @@ class PGWorld(World):
         k["interfere"] = rng.random() < 0.2
         k["iterprox"] = rng.random() < 0.2
         n = rng.randint(1, 6)
-        if k["family"] in ("benign", "spread"):
+        k["Aalias"] = "none"
+        if k["alg"] == "PDHG" and k["family"] != "spread" and rng.random() < 0.15:
+            # denoising-type problem: A = I, handed over as an operator that returns its input
+            k["family"] = "identity"
+            k["Aalias"] = rng.choice(["linop_identity", "lambda", "reshape"])
+        if k["family"] == "identity":
+            m = n
+            M = np.eye(n) + (0j if cplx else 0)
+        elif k["family"] in ("benign", "spread"):
             if k["family"] == "spread":
                 n = max(n, 2)
             m = rng.randint(n, 8)
@@ -120,7 +128,7 @@ class PGWorld(World):
             if gk == "l2":
                 opts += ["primal", "primal", "both"]
             k["gamma"] = rng.choice(opts)
-            k["long"] = (k["family"] == "benign") and rng.random() < 0.35
+            k["long"] = (k["family"] in ("benign", "identity")) and rng.random() < 0.35
             if k["family"] == "spread":
                 k["long"], k["steps"], k["gamma"], k["c"] = True, "array", "primal", 1.0
             if k["long"]:
@@ -357,8 +365,21 @@ class PGWorld(World):
                     if a.ndim:
                         a = a.reshape(v.shape)
                     return (v - a * y.reshape(v.shape)) / (1 + a)
-            Acb = common.Proxy("A", A_raw, ret, stats, interfere=itf)
-            AHcb = common.Proxy("AH", AH_raw, ret, stats, interfere=itf)
+            al = k.get("Aalias", "none")
+            if al != "none":
+                # alias-returning operator pair (the adjoint returns the dual variable itself)
+                if al == "linop_identity":
+                    A_raw = sp.linop.Identity(xshape)
+                    AH_raw = A_raw.H
+                elif al == "reshape":
+                    A_raw = sp.linop.Reshape(ushape, xshape)
+                    AH_raw = A_raw.H
+                else:
+                    A_raw = lambda v: v.reshape(ushape)  # noqa: E731
+                    AH_raw = lambda v: v.reshape(xshape)  # noqa: E731
+                stats["buggify.alias_returning_operator"] += 1
+            Acb = common.Proxy("A", A_raw, ret if al == "none" else "fresh", stats, interfere=itf)
+            AHcb = common.Proxy("AH", AH_raw, ret if al == "none" else "fresh", stats, interfere=itf)
             proxfc = common.Proxy("proxfc", proxfc_raw, ret, stats, interfere=itf)
             alg = common.lib_call("PrimalDualHybridGradient.__init__", -1, PrimalDualHybridGradient,
                                   proxfc, proxg, Acb, AHcb, x_caller, u_caller, tau_arg, sigma_arg,
@@ -454,7 +475,7 @@ class PGWorld(World):
         res.nontrivial = st["judged"] > 0
         res.sim_time = float(st["k"])
         res.fingerprint = codec.json_digest([
-            k["alg"], cplx, gk, k["family"], k["form"], k["ret"], bool(k.get("interfere")), bool(k.get("iterprox")), n, m, k["start"], k.get("c"),
+            k["alg"], cplx, gk, k["family"], k["form"], k["ret"], bool(k.get("interfere")), bool(k.get("iterprox")), k.get("Aalias"), n, m, k["start"], k.get("c"),
             k.get("accelerate"), k.get("steps"), k.get("gamma"), k.get("long"), plan["K"],
             round(np.log10(plan["lam"])), round(2 * np.log10(k.get("sigma_rel", 1.0))),
             common.compress_actions(acts)[:40],
